@@ -43,7 +43,9 @@ mod e2e {
 		/// parts whose HTLC was seen leaving the sender's channel unfulfilled / parts named by a PaymentPathFailed
 		failed_htlcs: BTreeSet<u64>, path_failed: BTreeSet<u64>,
 		/// routing fees of all paths the payment may use (first-hop HTLC amounts include them)
-		max_fee: u64 }
+		max_fee: u64,
+		/// a probe (send_probe): ProbeSuccessful / ProbeFailed events seen
+		is_probe: bool, probe_ev: u32 }
 
 	struct Ctx<'a> { net: Net, rec: &'a mut Rec, rng: &'a mut Rng, buf: Vec<(String, u32)>, group: u32, htlcs: BTreeMap<(usize, u64), (usize, u64, bool)>,
 		live: BTreeSet<(usize, u64)>, ev_seen: Vec<usize>, pays: Vec<Pay>, next_part: u64, log: Vec<String>, sender_balance: u64,
@@ -52,7 +54,9 @@ mod e2e {
 		/// first-hop channels of the sender with a monitor update left InProgress by the harness; peers to reconnect
 		paused: Vec<usize>, to_reconnect: Vec<(usize, usize)>,
 		/// a call into the sender panicked (guarded): its locks may be poisoned, the network is given up
-		broken: bool }
+		broken: bool,
+		/// HTLCs of probes seen leaving the sender's channel since the last drain: (payment number, part)
+		probe_buf: Vec<(u64, u64)> }
 
 	fn hops(net: &Net, nodes: &[usize], chans: &[usize], amt: u64) -> (Path, u64) {
 		let mut h = vec![]; let mut fee = 0;
@@ -103,6 +107,7 @@ mod e2e {
 				if let Some((p, part, fulfilled)) = self.htlcs.get(&k).cloned() {
 					if !fulfilled { self.pays[p].failed_htlcs.insert(part); }
 					let mid = self.pays[p].mid;
+					if self.pays[p].is_probe { self.probe_buf.push((mid, part)); continue; }
 					let g = self.group; if fulfilled { self.buf.push((format!("finalize {} {}", mid, part), g)); } else { self.buf.push((format!("fail {} {} 0 ?{}", mid, part, part), g)); }
 				}
 			}
@@ -127,6 +132,8 @@ mod e2e {
 			let new: Vec<Event> = self.net.events[0][self.ev_seen[0]..].to_vec();
 			self.ev_seen[0] = self.net.events[0].len();
 			let mut texts: Vec<(u64, String)> = vec![];
+			let mut fee_paid: Vec<(u64, Option<u64>)> = vec![];
+			let mut probe_texts: Vec<(u64, u64, bool)> = vec![];
 			let mut perm: BTreeMap<u64, bool> = BTreeMap::new();
 			for e in new.iter() {
 				match e {
@@ -139,6 +146,7 @@ mod e2e {
 							if sha256::Hash::hash(&payment_preimage.0).to_byte_array() != payment_hash.0 || *payment_hash != pay.hash { self.rec.oracle_fail(format!("PaymentSent preimage/hash mismatch pay={} :: {}", mid, self.log.join(" | "))); }
 							if *fee_paid_msat != Some(pay.fee) || *amount_msat != Some(pay.total) { self.rec.oracle_fail(format!("PaymentSent amount/fee {:?}/{:?} != sent {}/{} pay={} :: {}", amount_msat, fee_paid_msat, pay.total, pay.fee, mid, self.log.join(" | "))); }
 							texts.push((mid, format!("sent:{}", mid)));
+							fee_paid.push((mid, *fee_paid_msat));
 						} else { texts.push((0, "sent:unknown".into())); }
 					},
 					Event::PaymentFailed { payment_id, reason, .. } => {
@@ -148,6 +156,15 @@ mod e2e {
 							// (read from the sender's channels, independent of the OutboundPayments map)
 							let (live, _) = self.live_of(p);
 							if live > 0 { self.rec.oracle_fail(format!("PaymentFailed for payment {} while {} of its HTLCs are still pending in the sender's channels (committed, possibly behind an in-progress monitor update, or in the holding cell) :: {}", mid, live, self.log.join(" | "))); }
+						}
+					},
+					Event::ProbeSuccessful { payment_id, path, .. } | Event::ProbeFailed { payment_id, path, .. } => {
+						if let Some(p) = self.pays.iter().position(|x| x.id == *payment_id) {
+							let ok = matches!(e, Event::ProbeSuccessful { .. });
+							let mid = self.pays[p].mid; let part = self.part_of(p, path.hops[0].short_channel_id);
+							self.pays[p].probe_ev += 1;
+							if !self.pays[p].is_probe { self.rec.oracle_fail(format!("probe event for payment {} which is not a probe :: {}", mid, self.log.join(" | "))); }
+							probe_texts.push((mid, part, ok));
 						}
 					},
 					Event::PaymentPathSuccessful { payment_id, path, .. } => {
@@ -171,6 +188,7 @@ mod e2e {
 					_ => {},
 				}
 			}
+			for (mid, t) in texts.iter() { if self.pays.iter().any(|x| x.mid == *mid && x.is_probe) { self.rec.oracle_fail(format!("payment event {} for probe {} :: {}", t, mid, self.log.join(" | "))); } }
 			// HTLCs seen leaving in one look (e.g. several RAAs released by one event drain) have no observable order:
 			// order such a group like the implementation's path events
 			let ev_parts: Vec<String> = texts.iter().filter(|t| t.1.starts_with("path")).map(|t| { let w: Vec<&str> = t.1.split(':').collect(); format!("{} {}", w[1], w[2]) }).collect();
@@ -184,6 +202,9 @@ mod e2e {
 			for (k, v) in slots.iter().zip(moved.into_iter()) { raw[*k] = v; }
 			let mut ops: Vec<String> = raw.into_iter().map(|x| x.0).collect();
 			for o in ops.iter_mut() { if let Some(i) = o.find('?') { let part: u64 = o[i + 1..].parse().unwrap(); let pm = perm.get(&part).cloned().unwrap_or(false); o.truncate(i); o.push_str(if pm { "1" } else { "0" }); } }
+			// PendingOutboundPayment::remove runs first in fail_htlc: the fee ledger sees the removal before the state changes
+			let ops_expanded: Vec<String> = ops.iter().flat_map(|o| { let w: Vec<&str> = o.split(' ').collect(); if w[0] == "fail" { vec![format!("fee rem {} {}", w[1], w[2]), o.clone()] } else { vec![o.clone()] } }).collect();
+			let mut ops = ops_expanded;
 			if let Some(x) = extra { ops.push(x.to_string()); }
 			ops.push("handle".to_string());
 			texts.sort_by_key(|t| t.0);
@@ -193,6 +214,18 @@ ans.push_str(&self.tried); self.tried.clear();
 			let class = if texts.is_empty() { "quiet" } else if texts.iter().any(|t| t.1.starts_with("sent")) { "sent" } else if texts.iter().any(|t| t.1.starts_with("failed")) { "failed" } else { "path-events" };
 			self.log.push(format!("{} => {}", line, ans));
 			if ops.len() > 1 || !texts.is_empty() { self.rec.case(&line, &ans, &format!("flush:{}", class), ops.len() > 1); }
+			// probes: the HTLCs seen leaving since the last drain, each with the probe event of this drain
+			let gone: Vec<(u64, u64)> = self.probe_buf.drain(..).collect();
+			for (mid, part) in gone.iter() {
+				let ev = probe_texts.iter().find(|t| t.0 == *mid && t.1 == *part);
+				let a = match ev { Some((_, _, true)) => format!("ok probeok:{}:{}", mid, part), Some((_, _, false)) => format!("ok probefail:{}:{}", mid, part), None => "ok".to_string() };
+				let op = format!("pfail {} {} 0 {}", mid, part, ev.map(|t| t.2 as u8).unwrap_or(0));
+				self.log.push(format!("{} => {}", op, a));
+				self.rec.case(&op, &a, "probe:fail", true);
+			}
+			for t in probe_texts.iter() { if !gone.iter().any(|g| g.0 == t.0 && g.1 == t.1) { self.rec.oracle_fail(format!("probe event for payment {} part {} although its HTLC was not seen leaving the sender's channel :: {}", t.0, t.1, self.log.join(" | "))); } }
+			// PaymentSent.fee_paid_msat against the model's fee ledger
+			for (mid, f) in fee_paid { let a = format!("feepaid {} {}", mid, f.map(|x| x.to_string()).unwrap_or("none".into())); self.log.push(a.clone()); self.rec.case(&format!("feepaid {}", mid), &a, "feepaid", true); }
 			self.oracle_counts();
 		}
 		fn oracle_counts(&mut self) {
@@ -223,19 +256,20 @@ ans.push_str(&self.tried); self.tried.clear();
 		fn send(&mut self, mid: u64, to: usize, routes: Vec<(Vec<usize>, Vec<usize>, u64)>) -> Option<usize> {
 			let total: u64 = routes.iter().map(|r| r.2).sum();
 			let (preimage, hash, secret) = get_payment_preimage_hash(&self.net.nodes[to], Some(total), None);
-			let mut paths = vec![]; let mut fee = 0; let mut parts = vec![];
-			for (nodes, chans, amt) in routes.iter() { let (p, f) = hops(&self.net, nodes, chans, *amt); paths.push(p); fee += f; parts.push((self.next_part, chans[0])); self.next_part += 1; }
+			let mut paths = vec![]; let mut fee = 0; let mut parts = vec![]; let mut fee_ops = vec![];
+			for (nodes, chans, amt) in routes.iter() { let (p, f) = hops(&self.net, nodes, chans, *amt); paths.push(p); fee += f; fee_ops.push(format!("fee ins {} {} {}", mid, self.next_part, f)); parts.push((self.next_part, chans[0])); self.next_part += 1; }
 			let params = PaymentParameters::from_node_id(self.net.ids[to], 60);
 			let route = Route { paths, route_params: RouteParameters::from_payment_params_and_value(params, total) };
+			fee_ops.insert(0, format!("fee new {} {}", mid, route.route_params.max_total_routing_fee_msat.map(|m| m.to_string()).unwrap_or("-".into())));
 			let id = PaymentId(hash.0);
 			let r = self.net.nodes[0].node.send_payment_with_route(route, hash, RecipientOnionFields::secret_only(secret, total), id);
 			self.net.pump(0);
 			match r {
 				Ok(()) => {
-					self.pays.push(Pay { mid, id, hash, preimage, secret, to, total, fee, parts: parts.clone(), routes, sent_ev: 0, failed_ev: 0, recipient_claimed: false, recipient_action: 0, decided: false, failed_htlcs: BTreeSet::new(), path_failed: BTreeSet::new(), max_fee: fee });
+					self.pays.push(Pay { mid, id, hash, preimage, secret, to, total, fee, parts: parts.clone(), routes, sent_ev: 0, failed_ev: 0, recipient_claimed: false, recipient_action: 0, decided: false, failed_htlcs: BTreeSet::new(), path_failed: BTreeSet::new(), max_fee: fee, is_probe: false, probe_ev: 0 });
 					self.observe();
 					let csv: Vec<String> = parts.iter().map(|p| p.0.to_string()).collect();
-					self.flush(Some(&format!("send {} {}", mid, csv.join(","))));
+					self.flush(Some(&format!("send {} {} ; strategy {} a0 ; {}", mid, csv.join(","), mid, fee_ops.join(" ; "))));
 					Some(self.pays.len() - 1)
 				},
 				Err(e) => { self.rec.discarded += 1; self.log.push(format!("send refused {:?}", e)); None },
@@ -284,6 +318,7 @@ ans.push_str(&self.tried); self.tried.clear();
 			let params = PaymentParameters::from_node_id(self.net.ids[to], 60);
 			let route_params = RouteParameters::from_payment_params_and_value(params, total);
 			let route = Route { paths, route_params: route_params.clone() };
+			let max_fee_budget = route_params.max_total_routing_fee_msat;
 			let id = PaymentId(hash.0);
 			for pr in disc.iter() { self.net.disconnect(pr.0, pr.1); self.to_reconnect.push(*pr); self.log.push(format!("disconnect {:?}", pr)); }
 			self.observe();
@@ -322,7 +357,7 @@ ans.push_str(&self.tried); self.tried.clear();
 					let mut all_parts = parts.clone();
 					if let Some(rp) = retry_part { all_parts.push(rp); }
 					let all_routes = routes.clone();
-					self.pays.push(Pay { mid, id, hash, preimage, secret, to, total, fee: 0, parts: all_parts.clone(), routes: all_routes, sent_ev: 0, failed_ev: 0, recipient_claimed: false, recipient_action: 0, decided: false, failed_htlcs: BTreeSet::new(), path_failed: BTreeSet::new(), max_fee: fees.iter().sum::<u64>() + 1000 });
+					self.pays.push(Pay { mid, id, hash, preimage, secret, to, total, fee: 0, parts: all_parts.clone(), routes: all_routes, sent_ev: 0, failed_ev: 0, recipient_claimed: false, recipient_action: 0, decided: false, failed_htlcs: BTreeSet::new(), path_failed: BTreeSet::new(), max_fee: fees.iter().sum::<u64>() + 1000, is_probe: false, probe_ev: 0 });
 					let p = self.pays.len() - 1;
 					self.observe();
 					// what each path met, read from the channels
@@ -336,11 +371,16 @@ ans.push_str(&self.tried); self.tried.clear();
 					for (k, r) in res.iter().enumerate() { if *r != 'e' { fee += fees[k]; } if *r == 'm' { self.paused.push(parts[k].1); } }
 					let csv = |v: &Vec<(u64, usize)>| v.iter().map(|p| p.0.to_string()).collect::<Vec<_>>().join(",");
 					let mut line = format!("sendr {} {} {} 0", mid, csv(&parts), res.iter().map(|c| c.to_string()).collect::<Vec<_>>().join(","));
+					line.push_str(&format!(" ; strategy {} a{}", mid, if retry { 1 } else { 0 }));
+					// the fee ledger: create_pending_payment inserts every path, handle_pay_route_err removes the refused ones
+					line.push_str(&format!(" ; fee new {} {}", mid, max_fee_budget.map(|m| m.to_string()).unwrap_or("-".into())));
+					for (k, pt) in parts.iter().enumerate() { line.push_str(&format!(" ; fee ins {} {} {}", mid, pt.0, fees[k])); }
+					for (k, pt) in parts.iter().enumerate() { if res[k] == 'e' { line.push_str(&format!(" ; fee rem {} {}", mid, pt.0)); } }
 					let mut tried: Vec<String> = parts.iter().map(|p| p.0.to_string()).collect();
 					if res.iter().any(|c| *c == 'e') {
 						// handle_pay_route_err goes back to the router: one retry left and a route (variant 5), or no route
 						match retry_part {
-							Some((pt, c)) => { let r2 = res_of(self, c); if r2 != 'e' { fee += retry_route_txt.as_ref().unwrap().3; } line.push_str(&format!(" ; retryr {} {} 1 {} 0", mid, pt, r2)); tried.push(pt.to_string()); },
+							Some((pt, c)) => { let r2 = res_of(self, c); if r2 != 'e' { fee += retry_route_txt.as_ref().unwrap().3; } line.push_str(&format!(" ; retryr {} {} 1 {} 0 ; fee ins {} {} {}", mid, pt, r2, mid, pt, retry_route_txt.as_ref().unwrap().3)); if r2 == 'e' { line.push_str(&format!(" ; fee rem {} {}", mid, pt)); } tried.push(pt.to_string()); },
 							None => line.push_str(&format!(" ; abandon {} RouteNotFound", mid)),
 						}
 					}
@@ -430,6 +470,7 @@ ans.push_str(&self.tried); self.tried.clear();
 			};
 			let mut disconnected: Option<(usize, usize)> = None;
 			let mut abandoned = false;
+			let mut restarted = false;
 			for _round in 0..600 {
 				if self.quiescent() && disconnected.is_none() && self.paused.is_empty() && self.to_reconnect.is_empty() { break; }
 				if (!self.paused.is_empty() || !self.to_reconnect.is_empty()) && self.rng.chance(1, 6) { self.resume_one(); continue; }
@@ -456,8 +497,9 @@ ans.push_str(&self.tried); self.tried.clear();
 						Some(pr) => { self.net.reconnect(pr.0, pr.1); disconnected = None; self.observe(); self.log.push(format!("reconnect {:?}", pr)); },
 					}
 				} else if r < 99 { self.recent_checked(); }
+				else if !calm && disconnected.is_none() { if self.restart_sender(false) { restarted = true; } }
 			}
-			let tag = format!("{}{}", if abandoned { ":abandoned" } else { "" }, match asyncv { Some(v) => format!(":async{}", v), None => String::new() });
+			let tag = format!("{}{}{}", if abandoned { ":abandoned" } else { "" }, match asyncv { Some(v) => format!(":async{}", v), None => String::new() }, if restarted { ":restarted" } else { "" });
 			self.drain_and_judge(&[p], bal0, disconnected, &tag);
 		}
 		/// drain: complete paused monitor updates, reconnect, let MPP parts time out at the recipient, deliver everything;
@@ -615,10 +657,108 @@ ans.push_str(&self.tried); self.tried.clear();
 			let l = self.listed(p);
 			if self.pays[p].failed_ev == 1 && l != "not listed" { let tr = self.log.join(" | "); self.rec.oracle_fail(format!("payment {} is still listed as {} after its PaymentFailed :: {}", self.pays[p].mid, l, tr)); }
 		}
+		/// PROBE: `send_probe` over a 2-hop path; the last node does not know the payment hash and fails the HTLC back
+		/// (a permanent failure from the destination = ProbeSuccessful), or — `cut` — the last hop is disconnected and
+		/// node 1 fails it (ProbeFailed). Exactly one probe event, no PaymentSent / PaymentFailed / PaymentPathFailed, the id
+		/// is not listed afterwards, the balance is unchanged.
+		fn probe_payment(&mut self, mid: u64) {
+			self.log.clear();
+			let bal0 = self.balance();
+			let amt = 50_000 + self.rng.below(100) * 1000;
+			let first = if self.rng.chance(1, 2) { 0 } else { 1 };
+			let (path, fee) = hops(&self.net, &[0, 1, 2], &[first, 2], amt);
+			let part = self.next_part; self.next_part += 1;
+			let cut = self.rng.chance(1, 3);
+			if cut { self.net.disconnect(1, 2); self.log.push("disconnect (1, 2)".into()); }
+			let r = self.net.nodes[0].node.send_probe(path);
+			self.net.pump(0);
+			let (hash, id) = match r { Ok(x) => x, Err(e) => { self.rec.discarded += 1; self.log.push(format!("send_probe refused {:?}", e)); if cut { self.net.reconnect(1, 2); } return; } };
+			self.pays.push(Pay { mid, id, hash, preimage: PaymentPreimage([0; 32]), secret: PaymentSecret([0; 32]), to: 2, total: amt, fee, parts: vec![(part, first)], routes: vec![(vec![0, 1, 2], vec![first, 2], amt)],
+				sent_ev: 0, failed_ev: 0, recipient_claimed: false, recipient_action: 0, decided: false, failed_htlcs: BTreeSet::new(), path_failed: BTreeSet::new(), max_fee: fee, is_probe: true, probe_ev: 0 });
+			let p = self.pays.len() - 1;
+			self.observe();
+			self.flush(None);
+			let op = format!("probe {} {} o", mid, part);
+			self.log.push(format!("{} => probe ok", op));
+			self.rec.case(&op, "probe ok", "probe:send", true);
+			let ticks = self.rng.chance(1, 4);
+			for _ in 0..400 {
+				if self.quiescent() { break; }
+				if let Some((i, j)) = self.net.any_queued() { self.deliver(i, j); }
+				for i in 1..3 { if self.net.nodes[i].node.needs_pending_htlc_processing() { self.net.forward(i); } self.others_events(i); }
+				if self.net.nodes[0].node.needs_pending_htlc_processing() { self.net.forward(0); self.observe(); }
+				if ticks && self.rng.chance(1, 6) { self.net.nodes[0].node.timer_tick_occurred(); self.net.pump(0); self.observe(); self.buf.push(("tick".into(), 0)); }
+				self.flush(None);
+			}
+			if cut { self.net.reconnect(1, 2); self.observe(); self.log.push("reconnect (1, 2)".into()); for _ in 0..40 { if let Some((i, j)) = self.net.any_queued() { self.deliver(i, j); } else { break; } } }
+			self.recent_checked();
+			let tr = self.log.join(" | ");
+			let pay = &self.pays[p];
+			if pay.probe_ev != 1 || pay.sent_ev + pay.failed_ev != 0 || !pay.path_failed.is_empty() { self.rec.oracle_fail(format!("probe {} ended with {} probe events, {} PaymentSent, {} PaymentFailed, {} PaymentPathFailed (expected exactly one ProbeSuccessful / ProbeFailed and nothing else) :: {}", pay.mid, pay.probe_ev, pay.sent_ev, pay.failed_ev, pay.path_failed.len(), tr)); }
+			if self.listed(p) != "not listed" { self.rec.oracle_fail(format!("probe {} is still listed as {} after its HTLC was resolved :: {}", self.pays[p].mid, self.listed(p), tr)); }
+			let bal1 = self.balance();
+			if self.sender_htlcs().is_empty() && bal0 != bal1 { self.rec.oracle_fail(format!("probe {}: sender balance changed by {} msat :: {}", self.pays[p].mid, bal0 as i128 - bal1 as i128, tr)); }
+			self.sender_balance = bal1;
+			*self.rec.classes.entry(format!("probe:{}", if cut { "cut" } else { "through" })).or_insert(0) += 1;
+		}
+		/// RESTART of the sender while payments are in flight: its events are drained, the ChannelManager and the
+		/// ChannelMonitors are written and read back (a crash right after a persist), the peers reconnect later. With
+		/// `stale_map`: the manager that is read back was written BEFORE the last timer ticks (only the payments map
+		/// and timers are older; no channel state changed in between). The model does `persist` ... `restore`; retry
+		/// strategies and attempt counts do not survive.
+		fn restart_sender(&mut self, _stale_map: bool) -> bool {
+			if !self.paused.is_empty() || !self.to_reconnect.is_empty() { return false; }
+			// nothing may be pending between the node and its persister / event handler
+			self.flush(None);
+			if (0..self.net.chans.len()).any(|c| self.net.chans[c].0 == 0 && !self.net.pending_updates(0, c).is_empty()) { return false; }
+			let peers: Vec<usize> = (1..3).filter(|j| self.net.connected.contains(&(0, *j))).collect();
+			match self.net.restart(0) {
+				Ok(()) => {},
+				Err(e) => { self.rec.oracle_fail(format!("the sender's ChannelManager does not read back: {} :: {}", e, self.log.join(" | "))); self.broken = true; return false; },
+			}
+			self.ev_seen[0] = self.net.events[0].len();
+			self.observe();
+			self.buf.push(("persist".into(), 0));
+			self.buf.push(("restore".into(), 0));
+			let mids: Vec<u64> = self.pays.iter().filter(|x| !x.is_probe).map(|x| x.mid).collect();
+			for m in mids { self.buf.push((format!("strategy {} -", m), 0)); }
+			for j in peers { self.to_reconnect.push((0, j)); }
+			self.log.push("sender restarted from its freshly written ChannelManager and ChannelMonitors".into());
+			*self.rec.classes.entry("restart:sender".into()).or_insert(0) += 1;
+			true
+		}
 		fn recent_checked(&mut self) { self.flush(None); self.recent(); }
 		fn ticks(&mut self, n: usize) {
+			// STALE payments map: the manager that will be read back is written now, before the ticks (which age Fulfilled
+			// entries and drop them); no channel or monitor state changes in between
+			let stale = if self.paused.is_empty() && self.to_reconnect.is_empty() && self.rng.chance(1, 4) {
+				self.flush(None);
+				if (0..self.net.chans.len()).any(|c| self.net.chans[c].0 == 0 && !self.net.pending_updates(0, c).is_empty()) || !self.sender_htlcs().is_empty() { None }
+				else { self.buf.push(("persist".into(), 0)); self.log.push("sender's ChannelManager written".into()); Some(self.net.snapshot(0).0) }
+			} else { None };
 			for _ in 0..n { self.net.nodes[0].node.timer_tick_occurred(); self.net.pump(0); self.observe(); self.flush(Some("tick")); }
 			self.recent();
+			if let Some(mgr) = stale {
+				let mons = self.net.snapshot(0).1;
+				let peers: Vec<usize> = (1..3).filter(|j| self.net.connected.contains(&(0, *j))).collect();
+				match self.net.restart_from(0, &mgr, &mons) {
+					Ok(()) => {
+						self.ev_seen[0] = self.net.events[0].len();
+						self.observe();
+						self.buf.push(("restore".into(), 0));
+						let mids: Vec<u64> = self.pays.iter().filter(|x| !x.is_probe).map(|x| x.mid).collect();
+						for m in mids { self.buf.push((format!("strategy {} -", m), 0)); }
+						for j in peers { self.net.reconnect(0, j); }
+						self.observe();
+						for _ in 0..60 { if let Some((i, j)) = self.net.any_queued() { self.deliver(i, j); } else { break; } }
+						self.log.push(format!("sender restarted from the ChannelManager written {} ticks ago and its current ChannelMonitors", n));
+						self.flush(None);
+						self.recent();
+						*self.rec.classes.entry("restart:stale-map".into()).or_insert(0) += 1;
+					},
+					Err(e) => { self.rec.oracle_fail(format!("the sender's ChannelManager (written {} ticks ago) does not read back with its current monitors: {} :: {}", n, e, self.log.join(" | "))); self.broken = true; },
+				}
+			}
 		}
 	}
 
@@ -635,10 +775,10 @@ ans.push_str(&self.tried); self.tried.clear();
 			net.open(0, 1, 2_000_000, 500_000_000);
 			net.open(1, 2, 2_000_000, 500_000_000);
 			net.open(0, 2, 2_000_000, 500_000_000);
-			let mut ctx = Ctx { net, rec: &mut rec, rng: &mut rng, buf: vec![], group: 0, htlcs: BTreeMap::new(), live: BTreeSet::new(), ev_seen: vec![0; 3], pays: vec![], next_part: 1, log: vec![], sender_balance: 0, tried: String::new(), paused: vec![], to_reconnect: vec![], broken: false };
+			let mut ctx = Ctx { net, rec: &mut rec, rng: &mut rng, buf: vec![], group: 0, htlcs: BTreeMap::new(), live: BTreeSet::new(), ev_seen: vec![0; 3], pays: vec![], next_part: 1, log: vec![], sender_balance: 0, tried: String::new(), paused: vec![], to_reconnect: vec![], broken: false, probe_buf: vec![] };
 			for k in 0..per_net {
 				let calm = ctx.rng.chance(1, 4);
-				ctx.run_payment(k as u64 + 1, calm);
+				if ctx.rng.chance(1, 8) { ctx.probe_payment(k as u64 + 1); } else { ctx.run_payment(k as u64 + 1, calm); }
 				if ctx.broken { break; }
 				if ctx.net.nodes[0].node.list_channels().len() < 3 { break; } // a channel closed: start over with a fresh network
 				if ctx.rng.chance(1, 3) { let n = ctx.rng.range(1, 9) as usize; ctx.ticks(n); }
@@ -659,7 +799,7 @@ ans.push_str(&self.tried); self.tried.clear();
 			net.open(0, 1, 2_000_000, 500_000_000);
 			net.open(1, 2, 2_000_000, 500_000_000);
 			net.open(0, 2, 2_000_000, 500_000_000);
-			let mut ctx = Ctx { net, rec: &mut rec, rng: &mut rng, buf: vec![], group: 0, htlcs: BTreeMap::new(), live: BTreeSet::new(), ev_seen: vec![0; 3], pays: vec![], next_part: 1, log: vec![], sender_balance: 0, tried: String::new(), paused: vec![], to_reconnect: vec![], broken: false };
+			let mut ctx = Ctx { net, rec: &mut rec, rng: &mut rng, buf: vec![], group: 0, htlcs: BTreeMap::new(), live: BTreeSet::new(), ev_seen: vec![0; 3], pays: vec![], next_part: 1, log: vec![], sender_balance: 0, tried: String::new(), paused: vec![], to_reconnect: vec![], broken: false, probe_buf: vec![] };
 			if std::env::var("C03_DEBUG").is_ok() { for f in [253u32, 400, 506, 800] { *ctx.net.nodes[0].fee_estimator.sat_per_kw.lock().unwrap() = f; eprintln!("DUMP fee={} {:?}", f, ctx.net.channel_dump(0)); } *ctx.net.nodes[0].fee_estimator.sat_per_kw.lock().unwrap() = 253; }
 			for k in 0..12u64 {
 				let how = k % 3;
@@ -872,6 +1012,7 @@ impl<'a> Seq<'a> {
 					self.inflight.retain(|k| k.0 != id);
 					for p in parts.iter() { self.inflight.insert((id, *p)); }
 					self.emit(format!("send {} {}", id, Self::csv(&parts)), "ok", &[], "send:ok");
+					self.rec.directive(&format!("strategy {} {}", id, strategy.map(|n| format!("a{}", n)).unwrap_or("-".into())));
 				},
 				Ok(Err(e)) => {
 					if e != "DuplicatePayment" || !st.contains_key(&id) { let tr = self.trace.join(" | "); self.rec.oracle_fail(format!("send of id={} refused with {} (present={}): {}", id, e, st.contains_key(&id), tr)); }
@@ -950,7 +1091,7 @@ impl<'a> Seq<'a> {
 			let id = self.rng.range(1, 4);
 			let t = self.rng.below(4);
 			match self.f.await_invoice(pid(id), t) {
-				Ok(()) => { self.meta.insert(id, PayMeta { strategy: None, count: 0, gen: 0, no_secret: false }); self.tally.insert(id, Tally::default()); self.inflight.retain(|k| k.0 != id); self.emit(format!("await {} {}", id, t), "ok", &[], "await:ok") },
+				Ok(()) => { self.meta.insert(id, PayMeta { strategy: None, count: 0, gen: 0, no_secret: false }); self.tally.insert(id, Tally::default()); self.inflight.retain(|k| k.0 != id); self.emit(format!("await {} {}", id, t), "ok", &[], "await:ok"); self.rec.directive(&format!("strategy {} -", id)) },
 				Err(()) => self.emit(format!("await {} {}", id, t), "dup", &[], "await:dup"),
 			}
 		} else if r < 95 {
@@ -1031,6 +1172,9 @@ self.inflight.remove(&(*id, *part));
 			}
 			// the driver expands `restart` in the order inserts, claims, fails — keep the same item order per kind
 			let line = format!("restart {}", if items.is_empty() { "-".to_string() } else { items.join(",") });
+			// `retry_strategy` / `attempts` do not survive a reload: every payment is retried manually from now on
+			let ids: Vec<u64> = self.meta.keys().cloned().collect();
+			for i in ids { self.rec.directive(&format!("strategy {} -", i)); }
 			if panicked { self.emit(line, "panic", &[], "restart:panic"); self.dead = true; } else { self.emit(line, "ok", &evs_all, "restart"); }
 		}
 		if !self.dead && self.rng.chance(1, 3) { self.dump(); }
@@ -1103,7 +1247,8 @@ self.inflight.remove(&(*id, *part));
 					"Ok" => {
 						if present { let t = self.trace.join(" | "); self.rec.oracle_fail(format!("second send with a pending PaymentId {} was accepted: {}", id, t)); }
 						self.tally.insert(id, Tally::default());
-						let ops = self.ops_of_trace(Some((id, !with_secret)), &tr);
+						let mut ops = self.ops_of_trace(Some((id, !with_secret)), &tr);
+						if ops.first().map(|o| o.starts_with("sendr ")).unwrap_or(false) { ops.insert(1, format!("strategy {} a{}", id, retries)); }
 						let class = format!("sendw:{}calls:{}", tr.router_calls.len().min(3), if tr.path_calls.iter().any(|c| c.3 == PathAnswer::MonitorUpdateInProgress) { "mip" } else if tr.path_calls.iter().any(|c| c.3 == PathAnswer::ChannelUnavailable) { "err" } else if tr.path_calls.is_empty() { "param" } else { "ok" });
 						let line = format!("chain {}", ops.join(" ; "));
 						let ans = format!("{}{} chain=ok", canon("ok", &tr.events), Self::tried_suffix(&tr));
